@@ -161,4 +161,46 @@ theorem FreshFree_heapOf (T : Nat) (a : Arr) (c : Ctx) (hinv : ArrInv T a c.ctr)
   have := (hinv.ids.2 id hmem).2.2
   exact absurd this (by simp only [HSt.ctx] at hidx ⊢; omega)
 
+/-- from the array's own heap, `HeapPost` pins the heap after the call at EVERY identifier: it is `heapOf` of the new tree -/
+theorem HeapPost.eq_heapOf {d d' : Nat} {t : ATree d} {t' : ATree d'} {h' : SlabID → Option GSlab}
+    (hp : HeapPost (heapOf d t) h' t t') (hnd : (ATree.slabIds d' t').Nodup) : ∀ id, h' id = heapOf d' t' id := by
+  intro id
+  by_cases hnew : id ∈ ATree.slabIds d' t'
+  · exact Holds.eq_heapOf d' t' hp.holds hnd id hnew
+  · rw [heapOf_none d' t' id hnew]
+    by_cases hold : id ∈ ATree.slabIds d t
+    · exact hp.gone id hold hnew
+    · rw [hp.frame id hold hnew]
+      exact heapOf_none d t id hold
+
+/-- **`Array.remove` on `heapOf tree` = `heapOf (Arr.remove tree)`** (at every identifier), same element, same `Ctx` -/
+theorem Sl_Array_remove_heapOf (T : Nat) (hT : legalThreshold T = true) (a : Arr) (i : Nat) (c : Ctx) (depth : Nat)
+    (hd : a.d ≤ depth) (hinv : ArrInv T a c.ctr) (hi : i < a.toList.length) :
+    ∃ a' s', TransSl.Array_remove (envH T) depth (trArrH a ⟨heapOf a.d a.root, c⟩) (u64 i) =
+        some (some (a.toList.getD i default), none, trArrH a' s') ∧
+      a.remove T i c = .ok (a.toList.getD i default, a', s'.ctx) ∧ ∀ id, s'.heap id = heapOf a'.d a'.root id := by
+  have hlen : a.toList.length < 2^64 := by
+    have h1 : a.count = a.toList.length := by
+      obtain ⟨d, t, ty⟩ := a
+      exact Shape.count_eq_length hinv.shape
+    have h2 := hinv.count_lt
+    simp only [maxArrayElementCount] at h2
+    omega
+  obtain ⟨a', s', h1, h2, h3, _, _, hinv', _⟩ :=
+    (Sl_Array_remove_heap_full T hT a i ⟨heapOf a.d a.root, c⟩ depth hd hinv (by omega)
+      (Holds_heapOf a.d a.root hinv.ids.1)).1 hi
+  exact ⟨a', s', h1, h2, HeapPost.eq_heapOf h3 hinv'.ids.1⟩
+
+/-- **`Array.set` on `heapOf tree` = `heapOf (Arr.set tree)`** (at every identifier), same old element, same `Ctx` -/
+theorem Sl_Array_set_heapOf (T : Nat) (hT : legalThreshold T = true) (a : Arr) (i : Nat) (v : Elem) (c : Ctx)
+    (depth : Nat) (hd : a.d ≤ depth) (hinv : ArrInv T a c.ctr) (hv : ValueOk v) (hlt : i < a.count) :
+    ∃ a' c' s', a.set T i v c = .ok (a.toList.getD i default, a', c') ∧
+      TransSl.Array_set (envH T) depth (trArrH a ⟨heapOf a.d a.root, c⟩) (u64 i) (some v) =
+        some (some (a.toList.getD i default), none, trArrH a' s') ∧ s'.ctx = c' ∧
+      ∀ id, s'.heap id = heapOf a'.d a'.root id := by
+  obtain ⟨a', c', s', h1, h2, h3, h4, hinv', _⟩ :=
+    Sl_Array_set_heap_full_ok T hT a i v ⟨heapOf a.d a.root, c⟩ depth hd hinv (FreshFree_heapOf T a c hinv) hv
+      (Holds_heapOf a.d a.root hinv.ids.1) hlt
+  exact ⟨a', c', s', h1, h2, h3, HeapPost.eq_heapOf h4 hinv'.ids.1⟩
+
 end Atree.TransEq
